@@ -6,6 +6,8 @@ mod state;
 
 #[cfg(feature = "ipa-verif")]
 pub(crate) use runner::VerifHybridQuery;
+#[cfg(feature = "ipa-verif")]
+pub(crate) use runner::verif_reshard_aad;
 
 use completion::Handle as CompletionHandle;
 pub use executor::Result as ProtocolResult;
